@@ -223,7 +223,8 @@ def main(argv=None):
 
     # ---- replay files -----------------------------------------------------
     lines = []
-    rdir = os.path.join(ROOT, 'replays', prop)
+    rdir = os.path.join(os.environ.get('VERIF_REPLAY_DIR') or
+                        os.path.join(ROOT, 'replays'), prop)
     if os.path.isdir(rdir):       # witnesses of earlier runs are stale
         for fn in os.listdir(rdir):
             if fn.endswith('.json'):
@@ -284,11 +285,13 @@ def main(argv=None):
         'assumptions': list(getattr(mod, 'ASSUMPTIONS', [])),
         'wall_s': round(wall, 2), 'violations': len(seen_sig),
     }
-    os.makedirs(os.path.join(ROOT, 'evidence'), exist_ok=True)
-    tmp = os.path.join(ROOT, 'evidence', '.%s.json.tmp' % prop)
+    evdir = os.environ.get('VERIF_EVIDENCE_DIR') or \
+        os.path.join(ROOT, 'evidence')
+    os.makedirs(evdir, exist_ok=True)
+    tmp = os.path.join(evdir, '.%s.json.tmp' % prop)
     with open(tmp, 'w') as f:
         json.dump(ev, f, indent=1, default=repr, sort_keys=True)
-    os.replace(tmp, os.path.join(ROOT, 'evidence', '%s.json' % prop))
+    os.replace(tmp, os.path.join(evdir, '%s.json' % prop))
 
     for line in lines:
         print(line)
